@@ -47,6 +47,7 @@ class Explorer:
         self.pending = []
         self.k = 0
         self.only = None
+        self.after = None          # optional probe run in the child after A has finished (later single-threaded calls)
 
     # ---- monitoring callback -------------------------------------------------------------------------------
     def _cb(self, code, where):
@@ -128,7 +129,14 @@ class Explorer:
                 mon.free_tool_id(TOOL)
         if self.in_child:
             try:
-                os.write(self.child_w, pickle.dumps((va, self.child_b)))
+                vb = self.child_b
+                if self.after is not None:
+                    vb = ('with-probe', vb, call_value(self.after))
+                data = pickle.dumps((va, vb))
+                view = memoryview(data)
+                while view:
+                    n = os.write(self.child_w, view[:1 << 16])
+                    view = view[n:]
             finally:
                 os._exit(0)
         while self.pending:
